@@ -21,7 +21,7 @@ CONFIG = {
             "immediate -- quick: up to 2 past the group plus 254/255, thorough: all 256) x every program version 0..LogicVersion x "
             "both modes, as a minimal crafted program (constant blocks, argument pushes, the instruction) through the real "
             "CheckSignature/CheckContract and EvalSignatureFull/EvalContract on a populated mock ledger; the instruction is observed "
-            "with the Tracer hooks (stack before, remaining budget, error class, LedgerForLogic calls). b: random branch layouts "
+            "with the Tracer hooks (stack before, remaining budget, error class, LedgerForLogic calls). b: the extreme-immediate stream of C31 (all versions, both modes) and random branch layouts "
             "(bnz/bz/b/callsub/retsub/switch/match/constant blocks, 2-byte and varint offsets, targets on/off instruction boundaries, "
             "corrupted and truncated programs): real check(), the instructionStarts of the real checkStep, pc/callstack trajectory "
             "of the real evaluation. Non-trivial: x when the instruction executed or must be rejected, b when the check passed and "
@@ -36,7 +36,9 @@ CONFIG = {
         "(contract ctl_allowed of check_eval_agree; checked on every step of every traced evaluation)",
         "ledger state = what is reached through LedgerForLogic (accounts, assets, apps, boxes, inner transactions, round/timestamp); "
         "block headers via LedgerForSignature (`block`, txn FirstValidTime) are available to signature mode by design",
-        "the version a feature was introduced in is the Version column of OpSpecs / field specs of the running code (regenerated)",
+        "the version / mode a field was introduced with is fixed by the frozen hand-reviewed list coq/model/AvmFieldSpec.v and by the "
+        "repository's langspec_v<K>.json (ops: IntroducedVersion, Modes; fields: Version, Modes), both compared with the regenerated "
+        "run-time tables by vm_compute obligations; a new or changed field fails until the list is reviewed",
     ],
     "trusted_base": [
         "modelled: eval.go GetOpSpec/begin/check/checkStep/checkBranch*/checkSwitch/branchTarget*/switchTarget/step, "
